@@ -254,3 +254,141 @@ Example c04_pass_example :
         ++ [43;45;45;45;45;45;43;45;45;45;45;45;43;10])
   /\ text_render W d (after_callbacks ws v) <> text_render W d v.
 Proof. cbv zeta. split; [vm_compute; reflexivity | vm_compute; discriminate]. Qed.
+
+(* ROUND 6 (Model/TextMut.v, Proofs/TextMutProofs.v).
+
+   CELLS HOLDING CELLS.  A tabular.Cell is a legal item (NewCell(NewCell(x));
+   AddRowItems / AddHeaders wrap every argument in NewCell, so ready-made cells
+   handed to them end up inside cells).  wrap_cell W e n x is x held in n cells,
+   one inside the other.  Whatever n and x: the cell shows the documented text
+   of x - so the lines of its slot (c04_slots / c04_unmodified over
+   c04_history_refines, which quantifies over ALL items) are the lines of x -
+   with the emptiness, width and height of the cell made of x itself; and its
+   item, being a Cell, is a TerminalCellWidther. *)
+From Tab Require Import Model.TableMut Model.TextMut Proofs.TextMutProofs.
+
+Theorem c04_cell_item_shows_inner : forall W e json n it,
+  let c := vcell_of_item W e json (wrap_cell W e n it) in
+  let c0 := vcell_of_item W e json it in
+  vc_text c = documented_text e it
+  /\ TextLayout.cell_lines c = lines_of (documented_text e it)
+  /\ vc_empty c = vc_empty c0 /\ vc_tw c = vc_tw c0 /\ vc_h c = vc_h c0
+  /\ ((1 <= n)%nat -> vc_widther c = true).
+Proof. exact wrapped_shows_inner. Qed.
+Print Assumptions c04_cell_item_shows_inner.
+
+(* ITEMS THAT RE-DECLARE.  The caller's program is a list of mop
+   (Model/TableMut.v): building calls and column settings, MMutate id ob (the
+   object changes in place: text, declared width, declared height, any subset),
+   MUpdateAt r c / MUpdateHeader c (Cell.Update through CellAt / Headers).
+   tmview is the table as the text renderer meets it: every cell shows its item
+   as of the cell's LAST READ.
+
+   A cell made of (or updated from) an object that declares a width and a
+   height has exactly those, clamped as the accessors clamp them, whatever its
+   text is and whatever the cell held before ... *)
+Theorem c04_declared_sizes_read : forall W e json id w h,
+  m_width (e id) = Some w -> m_height (e id) = Some h ->
+  let c := vcell_of_item W e json (IObj id) in
+  let cw := (if w <? 0 then 0 else w)%Z in
+  vc_widther c = true /\ vc_tw c = cw
+  /\ vc_h c = (if h <? 1 then (if 0 <? cw then 1 else 0) else h)%Z.
+Proof. exact declared_sizes_read. Qed.
+Print Assumptions c04_declared_sizes_read.
+
+Theorem c04_declared_width_read : forall W e json id w,
+  m_width (e id) = Some w ->
+  let c := vcell_of_item W e json (IObj id) in
+  vc_widther c = true /\ vc_tw c = (if w <? 0 then 0 else w)%Z.
+Proof. exact declared_width_read. Qed.
+Print Assumptions c04_declared_width_read.
+
+(* ... after ANY program (no well-formedness needed) on a table of at least
+   one column, Render() is the flattened layout of that table (slots, padding,
+   declared width and height: c04_slots .. c04_declared_height apply to it) ... *)
+Theorem c04_mut_refines : forall W json d e (p : list mop),
+  (1 <= t_ncols (tb_core (m_tab (mrun e p))))%nat -> dec_ok d ->
+  mtext_render W json d (mrun e p)
+  = Ok (concat (map flatten (layout W d (tmview W json (mrun e p))))).
+Proof. exact mut_refines. Qed.
+Print Assumptions c04_mut_refines.
+
+(* ... a mutation alone shows nothing, neither text nor declared size ... *)
+Theorem c04_mutate_not_shown : forall W json st id ob,
+  tmview W json (mstep st (MMutate id ob)) = tmview W json st.
+Proof. exact mutate_not_shown. Qed.
+Print Assumptions c04_mutate_not_shown.
+
+(* ... and Update makes the cell - and only it - the cell of its item in the
+   objects' PRESENT state: text, width and height are re-read together, whether
+   or not the text is what it was at the last read (body cell, header cell). *)
+Theorem c04_update_rereads : forall W json st r c tr cs x,
+  nth_error (t_rows (tb_core (m_tab st))) r = Some tr -> r_body tr = RCells cs -> nth_error cs c = Some x ->
+  let v' := tmview W json (mstep st (MUpdateAt r c)) in
+  exists vcs,
+    nth_error (v_rows v') r = Some (Some vcs)
+    /\ nth_error vcs c = Some (vcell_of_item W (m_env st) json (fst (c_item x)))
+    /\ (forall c', c' <> c -> nth_error vcs c' = option_map (fun y => shown W json (c_item y)) (nth_error cs c'))
+    /\ (forall r', r' <> r -> nth_error (v_rows v') r' = nth_error (v_rows (tmview W json st)) r')
+    /\ v_header v' = v_header (tmview W json st) /\ v_ncols v' = v_ncols (tmview W json st)
+    /\ v_align v' = v_align (tmview W json st).
+Proof. exact update_rereads. Qed.
+Print Assumptions c04_update_rereads.
+
+Theorem c04_update_header_rereads : forall W json st c cs x,
+  t_header (tb_core (m_tab st)) = Some cs -> nth_error cs c = Some x ->
+  let v' := tmview W json (mstep st (MUpdateHeader c)) in
+  exists vcs,
+    v_header v' = Some vcs
+    /\ nth_error vcs c = Some (vcell_of_item W (m_env st) json (fst (c_item x)))
+    /\ (forall c', c' <> c -> nth_error vcs c' = option_map (fun y => shown W json (c_item y)) (nth_error cs c'))
+    /\ v_rows v' = v_rows (tmview W json st) /\ v_ncols v' = v_ncols (tmview W json st)
+    /\ v_align v' = v_align (tmview W json st).
+Proof. exact update_header_rereads. Qed.
+Print Assumptions c04_update_header_rereads.
+
+(* the two views of the mutation machine agree on everything the text renderer
+   reads wherever method sets are static (Go: they are), and a program without
+   mutation or Update gives the view of the c04_history_* theorems *)
+Theorem c04_shown_is_snap : forall W json e_now s,
+  methods_static (snd s) e_now (fst s) ->
+  let a := shown W json s in let b := snap_vcell W json e_now s in
+  vc_text a = vc_text b /\ vc_empty a = vc_empty b /\ vc_tw a = vc_tw b /\ vc_h a = vc_h b
+  /\ vc_widther a = vc_widther b.
+Proof. exact shown_is_snap. Qed.
+Print Assumptions c04_shown_is_snap.
+
+Theorem c04_mut_free_is_history : forall W json e (h : list top),
+  tmview W json (mrun e (map MOp h)) = hview W e json h.
+Proof. exact tmview_mutation_free. Qed.
+Print Assumptions c04_mut_free_is_history.
+
+(* non-vacuity: an object with text "ab" declaring width 2, height 1 under a
+   6-wide cell; it re-declares width 4, height 2 with the SAME text: nothing
+   moves until Update, then the line is padded as 4 wide and the row has 2
+   lines; and a cell holding a cell holding "ab\nc" shows both lines *)
+Example c04_redeclare_example :
+  let W := fun s : list N => length s in
+  let j := fun _ : item => @None (list N) in
+  let e0 : env := fun _ => mkObj (Some [97;98]) None None (Some 1%Z) (Some 2%Z) [] None in
+  let ob := mkObj (Some [97;98]) None None (Some 2%Z) (Some 4%Z) [] None in
+  let d := populate (mkDecor [45] [124] [43] [] [] [] [] [] [] [] [] [] [] [] [] [] [] [] [] [] [] [] false) in
+  let p1 := [MOp (TCore (AddRowItems [IString [48;49;50;51;52;53]; IString [120]])); MOp (TCore (AddRowItems [IObj 1; IString [121]]))] in
+  let first := Ok ([43;45;45;45;45;45;45;45;45;43;45;45;45;43;10]
+                   ++ [124;32;48;49;50;51;52;53;32;124;32;120;32;124;10]
+                   ++ [124;32;97;98;32;32;32;32;32;124;32;121;32;124;10]
+                   ++ [43;45;45;45;45;45;45;45;45;43;45;45;45;43;10]) in
+  mtext_render W j d (mrun e0 p1) = first
+  /\ mtext_render W j d (mrun e0 (p1 ++ [MMutate 1 ob])) = first
+  /\ mtext_render W j d (mrun e0 (p1 ++ [MMutate 1 ob; MUpdateAt 1 0]))
+     = Ok ([43;45;45;45;45;45;45;45;45;43;45;45;45;43;10]
+           ++ [124;32;48;49;50;51;52;53;32;124;32;120;32;124;10]
+           ++ [124;32;97;98;32;32;32;124;32;121;32;124;10]
+           ++ [124;32;32;32;32;32;32;32;32;124;32;32;32;124;10]
+           ++ [43;45;45;45;45;45;45;45;45;43;45;45;45;43;10])
+  /\ text_render W d (hview W e0 j [TCore (AddRowItems [wrap_cell W e0 2 (IString [97;98;10;99]); IString [120]])])
+     = Ok ([43;45;45;45;45;43;45;45;45;43;10]
+           ++ [124;32;97;98;32;124;32;120;32;124;10]
+           ++ [124;32;99;32;32;124;32;32;32;124;10]
+           ++ [43;45;45;45;45;43;45;45;45;43;10]).
+Proof. cbv zeta. repeat split; vm_compute; reflexivity. Qed.
